@@ -41,7 +41,7 @@ ASSUMPTIONS = [
     "dump is observed with skip_none=False (skip_none=True dropping an explicit null is C01's finding)",
 ]
 EXHAUSTIVE = {"quick": False, "thorough": False}
-FINDING_CLASSES = {1: "link-key-prefix-overlap", 2: "list-item-target-in-dump"}
+FINDING_CLASSES = {1: "link-key-prefix-overlap", 2: "list-item-target-in-dump", 3: "skipped-link-target-stripped"}
 
 # Which repairs (fixes/C15-<key>.patch) the implementation under test carries. None = decide by probing: a repair counts as
 # present exactly when the refutation witness of its finding (replays/known/C15-<key>.json, Proofs/C15Witness.v) no longer
@@ -275,7 +275,9 @@ def gen_links(rng, decls):
             links.append({"src": [sk], "tgt": sk, "fn": FN["inc"]})
         if rng.random() < 0.3:
             rng.shuffle(links)
-    return links
+    # a whole class argument as link target is outside the modelled space (Model/C15Links.v add_link: EUnmodelled)
+    whole = {d["key"] for d in decls if d["kind"] in ("class", "classlist")}
+    return [l for l in links if l["tgt"] not in whole]
 
 
 def nest(pairs):
